@@ -370,6 +370,15 @@ func runCase(mode string, shape []field, prefix string, fm map[string]string) li
 				ln.Alias = "t"
 				notes = append(notes, fmt.Sprintf("after overwriting []byte field %d the store serves %q for %q", i, h.Get(), full))
 			}
+			// ... and it is a PRIVATE copy: no other field may have changed with it
+			var n2 []string
+			during := observe(v, shape, prefix, s, 1, &n2)
+			for j := range during {
+				if j != i && during[j] != ln.Outcome[j] {
+					ln.Alias = "t"
+					notes = append(notes, fmt.Sprintf("overwriting []byte field %d changed field %d (%s %q): the fields share one buffer", i, j, shape[j].Kind, join(prefix, shape[j].Name)))
+				}
+			}
 			copy(b, valueOf(s.form[full], 1))
 		}
 	}
